@@ -113,6 +113,14 @@ Example map_compaction_and_rehash :
 Proof. vm_compute. repeat split. Qed.
 Print Assumptions map_compaction_and_rehash.
 
+(* XalanSet<V> = XalanMap<V,bool> with the default parameters (minimum buckets regenerated from the
+   header; the proof needs it to be >= 1): every set op sequence observes what the association-list
+   specification observes — membership, size and insertion order of the live values *)
+Theorem set_refines_fmap : forall (hash : nat -> nat) ops,
+  map (fun '(r, n, cts, _) => (r, n, cts)) (set_run hash ops) = srun (mkss [] [] false) (map set_to_map ops).
+Proof. exact set_refines_lemma. Qed.
+Print Assumptions set_refines_fmap.
+
 (* ---- XalanDOMString --------------------------------------------------------------------------- *)
 (* Every finite op sequence over two strings (append x3, push_back, insert x3, erase x4, resize,
    reserve, clear, assign x2, substr, assign from own substring, append of a substring / of the other
